@@ -171,17 +171,33 @@ CB_CONFINED = {"_delegate", "_map_fn", "_error_fn", "_FlatMapFuture__flattened"}
 
 def _cfg():
     cfg = make_cfg()
+    cfg.recursion_bound = {"more_executors._impl.map.MapFuture._delegate_resolved":
+                           (2, "flattening unwraps exactly ONE level: _delegate_resolved re-enters itself at most once on a path (stage 1 running stage 2 at once); "
+                               "a future that is the VALUE of the flattened future is handed on as a value", ["C13", "C16"])}
     cfg.stable |= CB_CONFINED
     cfg.fn_candidates_names = ["map.identity", "futures.base.f_return", "flat_map.FlatMapFuture._on_mapped.<lambda#1>"]
     return cfg
+
+
+def _with_c16(post):
+    """f_apply (C16) is built from wrap(f).with_map / with_flat_map without an error_fn: every clause of the stage contract that does not
+    concern error_fn is a hypothesis of its induction step, and is reported for C16 as well."""
+    def wrapped(engine, st, ctx, out):
+        res = []
+        for c in post(engine, st, ctx, out):
+            if "error_fn" not in c[0] and "C13" in c[3] and "C16" not in c[3]:
+                c = (c[0], c[1], c[2], list(c[3]) + ["C16"]) + tuple(c[4:])
+            res.append(c)
+        return res
+    return wrapped
 
 
 def _mk(cls_name, label, flat, **kw):
     stage2 = kw.pop("stage2", False)
     UNITS.append(Unit(
         "%s._delegate_resolved[%s]" % (cls_name, label), "map.MapFuture._delegate_resolved",
-        ["C13", "C01", "C03", "C12", "C18"],
-        _setup_resolved(cls_name, **kw), _post_stage2 if stage2 else _post_stage1(flat), cfg=_cfg, self_cls=cls_name))
+        ["C13", "C01", "C03", "C12", "C18", "C16"],
+        _setup_resolved(cls_name, **kw), _with_c16(_post_stage2 if stage2 else _post_stage1(flat)), cfg=_cfg, self_cls=cls_name))
 
 
 _mk("MapFuture", "user fn", False)
@@ -289,3 +305,23 @@ for _c in ("MapFuture", "FlatMapFuture"):
     for _v in ("functions given", "functions omitted"):
         UNITS.append(Unit("%s.__init__[%s]" % (_c, _v), ("map.MapFuture.__init__" if _c == "MapFuture" else "flat_map.FlatMapFuture.__init__"),
                           ["C13", "C01", "C03", "C18"], _setup_ctor(_c, _v), _post_ctor, cfg=_cfg_ctor, self_cls=_c))
+
+
+# ---- a failed input whose exception object is FALSY (A-TRUTHY lifted for this unit) -----------------------------------------------
+# `raise EmptyGroup()` where EmptyGroup defines __len__ == 0: the input is failed all the same (exception() is not None), and C13 says
+# error_fn / the original exception apply - not fn on a None "result".
+def _cfg_falsy():
+    cfg = _cfg()
+    cfg.falsy_exceptions = True
+    return cfg
+
+
+def _setup_falsy(engine, st):
+    from pyvc.symexec import exc_truthy
+    args, kw, ctx = _setup_resolved("MapFuture")(engine, st)
+    st.assume(z3.And(z3.Not(ctx["d_cancelled"]), z3.Not(Val.is_none(ctx["d_exc"])), z3.Not(exc_truthy(Val.id(ctx["d_exc"])))))
+    return args, kw, ctx
+
+
+UNITS.append(Unit("MapFuture._delegate_resolved[failed input, falsy exception object]", "map.MapFuture._delegate_resolved", ["C13", "C01", "C18"],
+                  _setup_falsy, _post_stage1(False), cfg=_cfg_falsy, self_cls="MapFuture"))
